@@ -399,6 +399,9 @@ func (cs *ContractSet) parseLines(file string, lines []string, nums []int, exter
 			cur.Pure = true
 		case "calllog":
 			cur.CallLog = true
+			if strings.Contains(it.rest, "impure") {
+				cur.Opts["impure"] = "1"
+			}
 		case "trusted":
 			cur.Trusted = true
 			cur.Notes = append(cur.Notes, "trusted: "+it.rest)
@@ -628,6 +631,7 @@ type Expr interface{ exprNode() }
 type (
 	EIdent struct{ Name string }
 	EInt   struct{ Val string }
+	EStr   struct{ Val string }
 	EBool  struct{ Val bool }
 	ENil   struct{}
 	EUn    struct {
@@ -670,6 +674,7 @@ type (
 
 func (EIdent) exprNode() {}
 func (EInt) exprNode()   {}
+func (EStr) exprNode()   {}
 func (EBool) exprNode()  {}
 func (ENil) exprNode()   {}
 func (EUn) exprNode()    {}
@@ -705,6 +710,16 @@ func lex(s string) ([]tok, error) {
 			}
 			out = append(out, tok{"int", strings.ReplaceAll(s[i:j], "_", "")})
 			i = j
+		case c == '"':
+			j := i + 1
+			for j < len(s) && s[j] != '"' {
+				j++
+			}
+			if j >= len(s) {
+				return nil, fmt.Errorf("unterminated string literal")
+			}
+			out = append(out, tok{"str", s[i+1 : j]})
+			i = j + 1
 		case c == '_' || c == '$' || c >= 'a' && c <= 'z' || c >= 'A' && c <= 'Z':
 			j := i
 			for j < len(s) && (s[j] == '_' || s[j] == '$' || s[j] == '#' || s[j] >= 'a' && s[j] <= 'z' || s[j] >= 'A' && s[j] <= 'Z' || s[j] >= '0' && s[j] <= '9') {
@@ -1145,6 +1160,8 @@ func (p *parser) primary() (Expr, error) {
 	switch t.k {
 	case "int":
 		return EInt{t.s}, nil
+	case "str":
+		return EStr{t.s}, nil
 	case "id":
 		switch t.s {
 		case "true":
